@@ -15,6 +15,43 @@ CHECKS = {
  ),
 }
 
+HIST_NOTE = "Trusted base: the harness wiring of the application (internal/chain: BaseApp+auth+pos+gov from the repository's constructors, fake Tendermint with a unix-socket tx index and a validator-set pipeline mirror) and the reference model internal/posmodel written from the property statements. Bounded: histories of D blocks with at most K deviating blocks over the stated alphabet; nothing is claimed beyond the bound or outside the alphabet."
+def hist(pid, text):
+    return dict(engine="explore", category="model_checking",
+      technique="explicit-state bounded exhaustive exploration of block histories on the real application (deviation-bounded, then depth-bounded), each ABCI call compared with a one-step reference model and state invariants",
+      text=text, design_ref="DESIGN.md §3 "+pid, note=HIST_NOTE)
+
+CHECKS.update({
+ "C02": hist("C02", "All histories within the bound are executed on the real BaseApp application in worker subprocesses; after every ABCI call (every transaction, BeginBlock, EndBlock) the raw store dump is decoded and checked: sum of all stored balances == supply record, no negative component, and the supply moved exactly by what the statement-level model requires (awards minted, slash/forced-unstake/DAO burns)."),
+ "C04": hist("C04", "After every ABCI call of every explored history: staked-pool balance == sum of recorded stakes of staked+unstaking validators (+ coins sent to the pool directly), and stake / maturity transactions move exactly the staked amount between account, record and pool (one-step model comparison)."),
+ "C05": hist("C05", "For InitChain and every EndBlock of every explored history the update batch is applied to a mirror of Tendermint's validator set under Tendermint's own rules (no duplicate key, no removal of an absent key, no negative power) and the resulting set is compared with the MaxValidators highest-powered staked, unjailed validators computed from the raw store."),
+ "C06": hist("C06", "Every status change of every validator between consecutive ABCI calls must be the one the statement-level model licenses for the call that ran (own funded stake, own begin-unstake, maturity at the first block with time >= completion, forced unstake); after every call the power index, the unstaking queue and the minimum-stake invariant are checked by raw iteration."),
+ "C07": hist("C07", "Every slash (queued burn, downtime, double-sign evidence of every age/target class) in every explored history is compared with exact integer arithmetic min(trunc(p*10^6*f), stake) on stake, pool and supply; forced unstake below the minimum; evidence against unknown/unstaked/tombstoned/too-old targets must burn nothing and BeginBlock must return."),
+ "C08": hist("C08", "Per validator the stored counter, offset and bit array are compared after every BeginBlock with (a) the one-step ring model and (b) a harness-side history of its last W expected votes; downtime punishment must happen at exactly the first qualifying block and clear the window."),
+ "C09": hist("C09", "Jailed validators must be absent from the mirror of Tendermint's set after every block; MsgUnjail must succeed exactly when the statement's conditions hold (jailed, stake >= minimum, time >= jailed-until, not tombstoned); double sign must tombstone and jail permanently."),
+ "C10": hist("C10", "At every BeginBlock the fees collected in the previous block must reach exactly its proposer (or the pos module account for an unknown proposer) and every queued award must be minted exactly once to its address, supply moving by the same sum, queue empty afterwards."),
+ "C12": dict(engine="opseq", category="model_checking",
+   technique="exhaustive enumeration of write histories x pruning options on the real rootmulti/IAVL stores against a map model, with reopen and LoadVersion of every version after every commit",
+   text="Every write history over N IAVL substores + a transient store, V versions, 7 pruning options: after every commit the store is reopened on a copy of the database and every version 1..latest+1 is loaded; commit ids, hashes, full contents, pruning (error, never data) and transient emptiness are compared with a map model.",
+   design_ref="DESIGN.md §3 C12", note="MemDB stands in for the on-disk database; bounded by N<=3, V<=4 and the 6-element per-store write alphabet."),
+ "C13": dict(engine="crashdb", category="fault_enumeration",
+   technique="exhaustive crash-point enumeration over the logged durable writes of every Commit, closed under commutation of substore order",
+   text="For every write history and every commit, every crash state (any subset of substores fully committed, at most one between its save and prune batch, commit-info not yet written; plus the complete commit) is materialised, reopened, checked for a single consistent version, the interrupted block re-executed (same hash) and one more block committed.",
+   design_ref="DESIGN.md §3 C13", note="A Batch.Write is atomic (goleveldb journal); torn batches and fsync ordering are outside the crash model; MemDB stands in for the on-disk database."),
+ "C14": dict(engine="opseq", category="model_checking",
+   technique="exhaustive enumeration of (history, store, key, height, prove) queries on the real rootmulti store with proof verification against recorded app hashes",
+   text="For every write history, between blocks and in the middle of a block, every store x key catalogue x height 0..latest+1 x prove is queried through rootmulti.Query; values are compared with the model snapshot of the height; proofs are verified with the repository's proof runtime against that height's app hash and must fail against other heights, other values and the opposite presence; pruned/future heights must serve nothing.",
+   design_ref="DESIGN.md §3 C14", note="Only /key queries; BaseApp-level height defaulting is exercised by the chain harness; bounded by the key catalogue and N<=2, V<=4."),
+ "C15": dict(engine="opseq", category="model_checking",
+   technique="exhaustive enumeration of operation programs on stacks of real cachekv wrappers against an overlay-of-maps model",
+   text="Every contract-respecting program of L operations (Get/Has/Set/Delete/drained iterations over 6 ranges x 2 directions/Write/CacheWrap/child Write/discard/open-step-close iterators with writes in between) on up to 3 nested cachekv wrappers over MemDB, IAVL and prefix parents; every return value, iteration sequence, parent content and final view compared with the model.",
+   design_ref="DESIGN.md §3 C15", note="Sequential part only so far (schedule exploration of concurrent Get/Set/Delete is added separately); bounded by L and the 4-key alphabet; no state merging."),
+ "C16": dict(engine="opseq", category="model_checking",
+   technique="exhaustive enumeration of operation programs through prefix/gas/trace wrappers and all their stackings against a map model, an independent cost table and the decoded trace",
+   text="Prefix: all programs on 6 prefixes (incl. FF-terminated and empty) over parents preloaded with boundary-key subsets, parent content compared byte for byte. Gas: all programs re-run under every limit one below/at/above each cumulative charge and pre-charged to overflow at each charge. Trace: decoded JSON lines equal the operation list. All ordered stackings of prefix/gas/trace/cache for result transparency.",
+   design_ref="DESIGN.md §3 C16", note="Shipped KVGasConfig is the documented table; bounded by program length 2-4 and the key/bound alphabets."),
+})
+
 NOT_BUILT = "check not built yet in this session (see DESIGN.md §3 for the planned model-checking formulation); not claimed until it runs"
 
 def main():
@@ -33,6 +70,9 @@ def main():
       },
       "engines": [
         {"name": "chain", "path": "harness/internal/chain", "serves_properties": ["C01","C02","C03","C04","C05","C06","C07","C08","C09","C10","C11","C17"], "kind_free_text": "application under test built from the repository's constructors + fake Tendermint (unix-socket tx index, validator-set pipeline mirror) + raw store dump"},
+        {"name": "explore", "path": "harness/internal/checks/explore.go", "serves_properties": ["C02","C04","C05","C06","C07","C08","C09","C10"], "kind_free_text": "deviation-bounded exhaustive history exploration sharded over worker subprocesses; reference model harness/internal/posmodel"},
+        {"name": "opseq", "path": "harness/internal/checks", "serves_properties": ["C12","C14","C15","C16"], "kind_free_text": "exhaustive operation programs / write histories against map models"},
+        {"name": "crashdb", "path": "harness/internal/crashdb", "serves_properties": ["C13"], "kind_free_text": "write-logging database and crash-state enumeration"},
         {"name": "enum", "path": "harness/internal/checks", "serves_properties": ["C18","C19","C20"], "kind_free_text": "bounded exhaustive input enumeration with independent oracles"},
       ],
       "checks": [],
